@@ -919,6 +919,10 @@ func (ssl *SSLAuthenticator) exchangeSciToken(ctx context.Context, negotiation *
 		tokenSize := int(sizeBytes[0])<<24 | int(sizeBytes[1])<<16 | int(sizeBytes[2])<<8 | int(sizeBytes[3])
 		slog.Info("🔐 SSL: Expecting SciToken", "bytes", tokenSize, "destination", "cedar")
 
+		if tokenSize < 0 || tokenSize > AUTH_PW_MAX_TOKEN_LEN {
+			return "", fmt.Errorf("SciToken size %d out of range (maximum %d)", tokenSize, AUTH_PW_MAX_TOKEN_LEN)
+		}
+
 		// Read token data
 		tokenBytes := make([]byte, tokenSize)
 		totalRead := 0
